@@ -10,17 +10,18 @@ import core
 import env
 import pipeline
 import c05gen as G
+import c05opts as O
 from pipeline import A, R, SPCase
 from core import Exn
 from env import NOW, SP_ID, SP_ACS_POST, SP_ACS_REDIRECT
 from saml2_tophat.saml import SCM_BEARER
 
 CLAIM = {
-    "text": "Coq theorems (Props/C05.v) over the model of the SP response pipeline (Model/Response.v: _parse_response, loads, verify, _assertion, condition_ok, for_me, get_subject, _bearer_confirmed, verify_recipient) and of where its return addresses come from (Model/Endpoints.v: Config.endpoint, Base.service_urls, asynchop choice, parse_authn_request_response with an ARBITRARY assertion_consumer_service table and arriving binding), for every response content, signature state, clock and configuration: unless unsolicited responses are allowed an accepted response's InResponseTo is an outstanding request and every retained confirmation of its plain and decrypted assertions names that request; service_urls hands out exactly the urls registered for the binding; an accepted browser-binding response's Destination matches the pattern or is registered for THAT binding (an own endpoint of another binding, a foreign url, any url when the SP has no endpoint for the binding is refused); with conversation info every retained confirmation's Recipient is the entity id or registered for that binding; the same for the n-th call of any history of calls on one SP; every audience restriction of every accepted assertion names the SP (the two deviations of the earlier code are refuted with witnesses, repaired by fix: commits). Tie: the cross product of the quantifier, 18 endpoint tables x arriving binding x Destination / Recipient kinds x pattern x conv info, confirmation layouts x plain / encrypted / multi-assertion delivery x outstanding-request variants on long-lived SP objects, and call histories on fresh SP objects, implementation vs model every run.",
-    "note": "Trusted: Coq kernel + vm_compute; the hand-written pipeline model is tied to the code by the exhaustive cross-product correspondence at accept/reject + returned-observables granularity; the regular-expression engine is an oracle input (re.search verdict); responses with <Advice> and attribute-query responses are outside the model; signatures are irrelevant here (unsigned path, proved independent).",
+    "text": "Coq theorems (Props/C05.v) over the model of the SP response pipeline (Model/Response.v: _parse_response, loads, verify, _assertion, condition_ok, for_me, get_subject, _bearer_confirmed, verify_recipient) and of where its return addresses come from (Model/Endpoints.v: Config.endpoint, Base.service_urls, asynchop choice, parse_authn_request_response with an ARBITRARY assertion_consumer_service table and arriving binding), for every response content, signature state, clock and configuration: unless unsolicited responses are allowed an accepted response's InResponseTo is an outstanding request and every retained confirmation of its plain and decrypted assertions names that request; service_urls hands out exactly the urls registered for the binding; an accepted browser-binding response's Destination matches the pattern or is registered for THAT binding (an own endpoint of another binding, a foreign url, any url when the SP has no endpoint for the binding is refused); with conversation info every retained confirmation's Recipient is the entity id or registered for that binding; the same for the n-th call of any history of calls on one SP; the solicited clause holds in terms of the EFFECTIVE allow_unsolicited of an SP built from a configuration of any class whose sp section SPELLS the option any way (Model/C05Opts.v over Client.load_special / resolve of C02: exactly the strings true / false become booleans, None and absence give the default False, anything else counts by truth): the string false is False, the effective value is false exactly for absent / None / False / 'false' / '' / 0, and such an SP refuses unsolicited responses at every call of any history; every audience restriction of every accepted assertion names the SP (the two deviations of the earlier code are refuted with witnesses, repaired by fix: commits). Tie: the cross product of the quantifier, 18 endpoint tables x arriving binding x Destination / Recipient kinds x pattern x conv info, confirmation layouts x plain / encrypted / multi-assertion delivery x outstanding-request variants on long-lived SP objects, call histories on fresh SP objects, and 18 spellings of allow_unsolicited x {SPConfig, Config, config_factory} x solicited / unsolicited messages on long-lived and fresh SP objects, implementation vs model every run.",
+    "note": "Trusted: Coq kernel + vm_compute; the hand-written pipeline model is tied to the code by the exhaustive cross-product correspondence at accept/reject + returned-observables granularity; strings other than the exact true / false ('False', 'no', '0' ...) are modelled as the code treats them (non-empty string = allowed); the regular-expression engine is an oracle input (re.search verdict); responses with <Advice> and attribute-query responses are outside the model; signatures are irrelevant here (unsigned path, proved independent).",
     "technique": "machine-checked proof (Coq) + exhaustive cross-product correspondence + implementation-level oracle",
 }
-TRUSTED = ["modelled: the SP response pipeline of response.py / entity.py as Model/Response.v, Config.endpoint / Base.service_urls as Model/Endpoints.v (see their headers); not modelled: attribute-query responses, Advice, EncryptedID, holder-of-key extension parsing beyond 'has KeyInfo'",
+TRUSTED = ["modelled: the SP response pipeline of response.py / entity.py as Model/Response.v, Config.endpoint / Base.service_urls as Model/Endpoints.v, Config.load_special / getattr / Base.__init__ option resolution as Model/Client.v + Model/C05Opts.v (see their headers); not modelled: attribute-query responses, Advice, EncryptedID, holder-of-key extension parsing beyond 'has KeyInfo'",
            "re.search on the destination pattern is computed by Python and passed to the model as dest_regex_match"]
 ASSUMPTIONS = ["the response arrives over a browser binding unless the cell says SOAP", "regex verdict supplied per case"]
 RULE = ("cells = InResponseTo{match,other-outstanding,unknown,absent} x SCD-InResponseTo{match,other-outstanding,unknown,absent} x Destination{own,foreign,absent} "
@@ -29,7 +30,9 @@ RULE = ("cells = InResponseTo{match,other-outstanding,unknown,absent} x SCD-InRe
         "product by a covering design (every pair of factor values), thorough runs it whole.  Per-binding part (c05gen.py): service_urls for 18 ACS tables x 5 bindings (whole); "
         "block D = tables x arriving {post,redirect,artifact} x Destination {P,R,A,bare,foreign,near-miss,absent} x pattern (whole); block R = tables x arriving x Recipient (6) x conv-info (3) x {plain,encrypted} "
         "(whole for the 10 small tables); block S = irt x scd x allow_unsolicited x confirmation layout (5) x delivery {plain,encrypted,plain+encrypted, 3 multi-assertion} x outstanding variant (4) "
-        "(whole for the first two variants); 700 random cells; 60 histories of 6 calls on a fresh SP object; non-trivial = distinct cell / history")
+        "(whole for the first two variants); 700 random cells; 60 histories of 6 calls on a fresh SP object; spellings (c05opts.py): 18 spellings of allow_unsolicited x 3 configuration classes "
+        "x messages (irt x scd whole, hidden confirmations, encrypted, each browser binding, SOAP) - quick: whole for SPConfig, the ten core spellings x single-confirmation messages for the other classes - "
+        "and one 6-call history per spelling and class on a fresh SP object; non-trivial = distinct cell / history")
 
 AUD_LAYOUTS = {
     "none": [], "me": [[SP_ID]], "other": [["https://other.example.org/sp"]],
@@ -51,6 +54,7 @@ FACTORS = [
     ("shape", ["single", "nodata-first", "encrypted", "two-confirmations"]),
 ]
 G_IMPORTS = "Model.Status Model.Response Model.Endpoints"
+O_IMPORTS = "Model.Status Model.Response Model.Client Model.Endpoints Model.C05Opts"
 OUTSTANDING = {"req-1": "/came-from-1", "req-2": "/came-from-2"}
 
 
@@ -197,6 +201,96 @@ def run_service_urls(ctx):
     ctx.correspond("service_urls_per_binding", G_IMPORTS, "show_service_urls", "(list endp * str)", cases)
 
 
+def oracle_spelled(ctx, c, case, spec, got):
+    """the solicited clause for a configuration that SPELLS allow_unsolicited some way (no model involved): whenever
+    the spelling does not mean 'allowed' (absent, None, False, 'false', '', 0) an unsolicited response is refused"""
+    if not isinstance(got, list) or O.documented(c["spell"]) is not False or c["arrive"] not in G.BROWSER:
+        return
+    outs = G.OUT_VARIANTS[c["outs"]]
+    if spec["irt"] not in outs:
+        ctx.oracle_fail("unsolicited-accepted:allow_unsolicited-spelled=%s:class=%s:irt=%s" % (c["spell"], c["cls"], c["irt"]),
+                        "SP configured with allow_unsolicited %s (%s) accepted a response with InResponseTo %r; outstanding %r"
+                        % (c["spell"], c["cls"], spec["irt"], sorted(outs)), c)
+    for a in spec["assertions"] + spec["encrypted"]:
+        for sc in a["confirmations"]:
+            if sc.get("data", True) and sc["irt"] is not None and sc["irt"] != spec["irt"]:
+                ctx.oracle_fail("confirmation-names-other-request:allow_unsolicited-spelled=%s:class=%s:confs=%s:delivery=%s"
+                                % (c["spell"], c["cls"], c["confs"], c["delivery"]),
+                                "SP configured with allow_unsolicited %s (%s) accepted although a bearer confirmation names request %r and the response %r"
+                                % (c["spell"], c["cls"], sc["irt"], spec["irt"]), c)
+
+
+def run_spellings(ctx):
+    """every spelling of allow_unsolicited x configuration class x solicited / unsolicited message, on long-lived SP
+    objects (one per spelling and class, calls interleave in seeded order) vs Model.C05Opts"""
+    q = ctx.quick
+    # (a) the option as the client object holds it (truth value) vs effective_unsolicited
+    cases = []
+    for cls in O.CLASSES:
+        for sp in O.SPELLINGS:
+            case = O.SPCaseO(spell=sp, cls=cls)
+            val = getattr(case.sp(), "allow_unsolicited", None)
+            cases.append(dict(id="%s/%s" % (cls, sp), coq=case.effective_coq(), impl=bool(val), show=dict(kind="OV", spell=sp, cls=cls)))
+            ctx.nontriv(("option", cls, sp))
+            doc = O.documented(sp)
+            if doc is not None and bool(val) != doc:
+                ctx.oracle_fail("option-value:allow_unsolicited-spelled=%s:class=%s" % (sp, cls),
+                                "client.allow_unsolicited is %r for the spelling %s, which means %s" % (val, sp, doc), dict(kind="OV", spell=sp, cls=cls))
+    ctx.correspond("sp_option_effective", O_IMPORTS, "show_effective", "((str * list (str * section)) * (section * spelling))", cases)
+
+    # (b) spelling x class x message
+    ocells = O.block_spellings(q)
+    ctx.rng.shuffle(ocells)
+    cases, seen = [], {}
+    with env.Clock(NOW):
+        for n, c in enumerate(ocells):
+            case, spec = O.build(c)
+            xml = pipeline.build_xml(spec)
+            coq, ids = pipeline.case_coq(case, spec, NOW)
+            got = G.call_sp(case.sp(), case, xml, ids)
+            cases.append(dict(id="o%d" % n, coq=coq, impl=G.verdict(got), show=c))
+            ctx.nontriv(tuple(sorted(c.items())))
+            acc = isinstance(got, list)
+            ctx.count("O:%s:%s" % (c["spell"], "accepted" if acc else "rejected"))
+            oracle_spelled(ctx, c, case, spec, got)
+            mk = tuple(sorted((k, v) for k, v in c.items() if k not in ("spell", "msg")))
+            seen[(c["spell"], mk)] = (acc, c)
+            if n % 600 == 0:
+                ctx.sample(dict(cell=c, outcome=got))
+    # a documented spelling behaves exactly like the boolean it stands for, on every message (no model involved)
+    for (sp, mk), (acc, c) in seen.items():
+        twin = O.TWIN.get(sp)
+        if twin is not None and (twin, mk) in seen and seen[(twin, mk)][0] != acc:
+            ctx.oracle_fail("spelling-differs-from-boolean:allow_unsolicited-spelled=%s:class=%s:irt=%s:scd=%s" % (sp, c["cls"], c["irt"], c["scd"]),
+                            "the same response is %s by an SP configured with allow_unsolicited %s and %s with %s"
+                            % ("accepted" if acc else "refused", sp, "accepted" if seen[(twin, mk)][0] else "refused", twin), c)
+    ctx.correspond("sp_option_spellings", O_IMPORTS, "show_accept_spelled", "(scfg * response)", cases, shard=110)
+
+    # (c) histories: a FRESH SP object per spelling and class, solicited / unsolicited calls alternate
+    cases = []
+    with env.Clock(NOW):
+        for cls in O.CLASSES:
+            for spn in O.SPELLINGS:
+                if q and cls != "SPConfig" and spn not in O.CORE:
+                    continue
+                hist = O.history(ctx.rng, spn, cls)
+                sp, terms, outs, case0 = None, [], [], None
+                for c in hist:
+                    case, spec = O.build(c)
+                    if sp is None:
+                        sp, case0 = case.fresh_sp(), case
+                    xml = pipeline.build_xml(spec)
+                    rc, ids = pipeline.response_coq(spec, case.enc_keys)
+                    got = G.call_sp(sp, case, xml, ids)
+                    terms.append("(%s, %s, %s)" % (SPCase.coq(case, NOW, spec.get("destination")), core.cstr(G.BIND[c["arrive"]]), rc))
+                    outs.append(G.verdict(got))
+                    oracle_spelled(ctx, dict(c, position=len(outs) - 1, history=hist[:len(outs)]), case, spec, got)
+                cases.append(dict(id="oh/%s/%s" % (cls, spn), coq="(%s, [%s])" % (case0.coq(NOW), "; ".join(terms)), impl=outs, show=hist))
+                ctx.nontriv(("ohistory", json.dumps(hist, sort_keys=True)))
+                ctx.count("OH:%d-accepted" % sum(isinstance(o, list) for o in outs))
+    ctx.correspond("sp_option_spelling_history", O_IMPORTS, "show_spelled_calls", "(scfg * list call)", cases, shard=20)
+
+
 def run(ctx):
     env.tool_inprocess(True)
     cs = cells(ctx)
@@ -259,6 +353,9 @@ def run(ctx):
             ctx.count("history:%d-accepted" % sum(isinstance(o, list) for o in outs))
     ctx.correspond("sp_call_history", G_IMPORTS, "show_calls", "(list endp * list call)", cases, shard=20)
 
+    # ---- the spellings of allow_unsolicited in the configuration
+    run_spellings(ctx)
+
 
 def replay(ctx, payload):
     env.tool_inprocess(True)
@@ -273,6 +370,20 @@ def replay(ctx, payload):
         elif isinstance(cell, dict) and "call" in cell and "layout" in cell:
             sp = G.SPCaseE(layout=cell["layout"]).sp()
             print("implementation: service_urls(%s) = %r on table %r" % (cell["binding"], sp.service_urls(G.BIND[cell["binding"]]), G.table_conf(cell["layout"])))
+        elif isinstance(cell, dict) and cell.get("kind") == "OV":
+            sp = O.SPCaseO(spell=cell["spell"], cls=cell["cls"]).fresh_sp()
+            print("implementation: allow_unsolicited spelled %s on a %s configuration -> client.allow_unsolicited = %r"
+                  % (cell["spell"], cell["cls"], getattr(sp, "allow_unsolicited", None)))
+        elif (isinstance(cell, dict) and "spell" in cell) or (isinstance(cell, list) and cell and "spell" in cell[0]):
+            hist = cell if isinstance(cell, list) else cell.get("history") or [cell]
+            sp = None
+            for c in hist:
+                case, spec = O.build(c)
+                sp = sp or case.fresh_sp()
+                xml = pipeline.build_xml(spec)
+                _, ids = pipeline.response_coq(spec, case.enc_keys)
+                print("allow_unsolicited spelled %-8s (%s) call over %-8s InResponseTo %-17s confirmation %-17s -> implementation outcome: %r"
+                      % (c["spell"], c["cls"], c["arrive"], c["irt"], c["scd"], G.call_sp(sp, case, xml, ids)))
         elif isinstance(cell, (dict, list)) and (isinstance(cell, list) or "history" in cell or "kind" in cell):
             # a per-binding cell, or a history (list of cells) on one fresh SP object
             hist = cell if isinstance(cell, list) else cell.get("history") or [cell]
